@@ -219,6 +219,11 @@ func init() {
 		}
 		return in.mkStr(bs)
 	})
+	reg(vxPkg+"NodeHashesSeparated", func(in *Interp, c *Frame, fn *ssa.Function, a []Value) Value {
+		in.assume(in.collisionFreeAxioms())
+		in.assume(in.nodeHashSeparationAxioms())
+		return nil
+	})
 	reg(vxPkg+"CollisionFree", func(in *Interp, c *Frame, fn *ssa.Function, a []Value) Value {
 		in.assume(in.collisionFreeAxioms())
 		return nil
